@@ -9,11 +9,16 @@ from .core import Prop, close, dec_list, enc, enc_list, exc_class
 FUNCS = ["mean", "median", "expectile", "quantile"]
 
 
-def call_ident(y, z, f, level):
+def call_ident(y, z, f, level, ydt=None, zdt=None):
     from model_diagnostics.calibration import identification_function
 
     try:
-        v = identification_function(np.array(y, dtype=float), np.array(z, dtype=float), functional=f, level=level)
+        ya, za = np.array(y, dtype=float), np.array(z, dtype=float)
+        if ydt:
+            ya = ya.astype(ydt)
+        if zdt:
+            za = za.astype(zdt)
+        v = identification_function(ya, za, functional=f, level=level)
     except Exception as e:
         return {"err": exc_class(e)}
     return {"v": [float(t) for t in np.asarray(v, dtype=float)]}
@@ -59,6 +64,19 @@ class C08(Prop):
                 zsf.append(math.nextafter(y, -math.inf) if r < 0.35 else math.nextafter(y, math.inf) if r < 0.5 else y * (1 - 1e-10) if r < 0.7 else y * (1 + 1e-12) if r < 0.8 else y)
             yield {"stream": "pairs", "f": rng.choice(FUNCS), "level": rng.choice(ic.DYADIC_LEVELS[:9]),
                    "y": [str(Fraction(v)) for v in ysf], "z": [str(Fraction(v)) for v in zsf]}
+        for k in range(N // 5):
+            # observations and predictions in (different) narrow / unsigned / single-precision dtypes
+            n = rng.randint(1, 8)
+            ydt = rng.choice(["int64", "int32", "uint8", "uint16", "uint32", "bool", "float32"])
+            zdt = rng.choice(["float32", "float32", "uint8", "uint32", "int64", "bool", "float64"])
+            top = 1 if "bool" in (ydt, zdt) else 200
+            ysf = [float(rng.randint(0, top)) for _ in range(n)]
+            if zdt in ("float32", "float64") and top > 1:
+                zsf = [rng.choice([y, float(rng.randint(-2 * top, top)) / 2, -0.5 - rng.randint(0, 5)]) for y in ysf]  # negative non-integers
+            else:
+                zsf = [float(rng.randint(0, top)) for _ in ysf]
+            yield {"stream": "pairs", "f": rng.choice(FUNCS), "level": rng.choice(ic.DYADIC_LEVELS[:9]), "ydtype": ydt, "zdtype": zdt,
+                   "y": [str(Fraction(v)) for v in ysf], "z": [str(Fraction(v)) for v in zsf]}
         M = 400 if tier == "quick" else 6000
         for k in range(M):
             n = rng.randint(1, 14)
@@ -71,7 +89,7 @@ class C08(Prop):
         ys = [float(Fraction(v)) for v in case["y"]]
         lv = ic.level_float(case["level"]) if case["level"] not in ("0", "1", "-1", "1.5", "2") else float(case["level"])
         if case["stream"] == "pairs":
-            return call_ident(ys, [float(Fraction(v)) for v in case["z"]], case["f"], lv)
+            return call_ident(ys, [float(Fraction(v)) for v in case["z"]], case["f"], lv, case.get("ydtype"), case.get("zdtype"))
         # sample stream: evaluate at a grid of constants
         grid = self.grid(case)
         out = {"grid": [str(g) for g in grid], "vals": []}
